@@ -74,4 +74,6 @@ package gsfa
 //@   mode int
 //@   lit 1 ensures !ok ==> result0.Offset == 0 && result0.Size == 0 && result1 == nil
 //@   lit 1 ensures ok ==> result0.Offset == got[0] && result0.Size == got[1] && result1 == nil
+//@   # literal #2 records where the record just written lives: exactly the (offset, length) LinkedLog.Put reports, under that address
+//@   fncall a.offsets.Set requires arg0 == pk && arg1[0] == offset && arg1[1] == uint64(ln)
 //@   noframe
